@@ -116,13 +116,15 @@ Fixpoint first_err (l : list obj) : option err :=
 (* the undecorated kernel applied to runtime values: numbers, or else unspecified *)
 Definition raw_apply1 (g : op1) (a : obj) : obj :=
   match a with ONum x => ONum (snd g x) | OErr e => OErr e | _ => OErr EObjArg end.
+(* (nested single matches instead of `match a, b`: the latter expands to 17 x 17 branches) *)
+Definition is_err (o : obj) : bool := match o with OErr _ => true | _ => false end.
+Definition num_of (o : obj) : option num := match o with ONum x => Some x | _ => None end.
 Definition raw_apply2 (g : op2) (a b : obj) : obj :=
-  match a, b with
-  | ONum x, ONum y => ONum (snd g x y)
-  | OErr e, _ => OErr e
-  | _, OErr e => OErr e
-  | _, _ => OErr EObjArg
-  end.
+  if is_err a then a else if is_err b then b
+  else match num_of a, num_of b with
+       | Some x, Some y => ONum (snd g x y)
+       | _, _ => OErr EObjArg
+       end.
 Definition raw_apply3 (g : op3) (a : obj) (args : list obj) : obj :=
   match first_err args with
   | Some e => OErr e
@@ -157,10 +159,7 @@ Fixpoint apply_binop_f (fuel : nat) (g : op2) (a b : obj) : obj :=
   | O => OErr EFuel
   | S n =>
     let sel := match fst g with SRaw => raw_apply2 g | SDec => apply_binop_f n (demote g) | SPy => apply_binop_f n g end in    (* selector(x, y) on runtime values *)
-    match a, b with
-    | OErr e, _ => OErr e
-    | _, OErr e => OErr e
-    | _, _ =>
+    if is_err a then a else if is_err b then b else        (* an exception propagates *)
       match class_of a with
       | CFn => OBinFn g a b                                     (* AbstractFunction._compose_binop *)
       | CStr => OBinStr g a (to_stream b)                       (* Stream._compose_binop *)
@@ -175,13 +174,12 @@ Fixpoint apply_binop_f (fuel : nat) (g : op2) (a b : obj) : obj :=
         | CPat => OBinPat g a b
         | CSeq KChan => list_binop_f oview OSeq OErr n sel a b KChan
         | COperand r => mk_operand r (sel a (operand_value b))
-        | _ => match a, b with
-               | ONum x, ONum y => ONum (snd g x y)
+        | _ => match num_of a, num_of b with
+               | Some x, Some y => ONum (snd g x y)
                | _, _ => OErr EType                             (* plain list/tuple: Python's own meaning, not lifted *)
                end
         end
       end
-    end
   end.
 
 (* dispatch: `a.clip(lo, hi)`, `bi.clip(a, lo, hi)`: only the first argument is looked at *)
